@@ -129,7 +129,7 @@ def check(c):
         def on_epoch_end(self, s, e):
             record["epochs"].append(e)
             BOOM["cur"] = e
-            record["metrics"][e] = {"sum": plain_sum(s), "norm": pnorm_raw(s), "scaled": scaled(s, scale=2.5)}
+            record["metrics"][e] = {"sum": plain_sum(s), "norm": pnorm_raw(s), "scaled": scaled(s, scale=2.5), "seen": history_seen()}
             record["params"][e] = params_of(s)
             if c["obs_period"] is not None:
                 torch.manual_seed(1000 + e)
@@ -145,10 +145,24 @@ def check(c):
                 s.stop_training = True
 
     labels = [f"type={c['type']}"]
+
+    def history_seen():
+        if not mes:
+            return 0.0
+        me_ = mes[0][3]
+        n_ = len(me_)
+        last_e = float(me_.epochs[-1]) if n_ else -1.0
+        last_v = float(me_.get_value("sum")) if n_ else 0.0
+        return float(n_) + 1e-3 * last_e + 1e-6 * last_v
+
     with tempfile.TemporaryDirectory(prefix="vf_c17_") as tmp:
         mes = []
         for i, p in enumerate(c["metric_periods"]):
             metrics = {"sum": plain_sum, "norm": pnorm, "scaled": scaled} if i == 0 else {"norm": pnorm, "sum": plain_sum}
+            if i == 0 and c["seed"] % 3 == 0:
+                # re-entrant use: a metric that inspects its own evaluator while it is being evaluated (how many evaluations are on record, the
+                # last recorded epoch and value): it sees the completed evaluations only, exactly what the recorder ahead of it in the list sees
+                metrics = dict(metrics, seen=lambda s_, **kw_: history_seen())
             log = os.path.join(tmp, f"metrics{i}.csv") if c["log"] else None
             mes.append((p, metrics, log, MetricEvaluator(p, metrics, verbose=bool(c.get("verbose")), log=log, scale=2.5)))
         if mes and c.get("decoy_shared_metrics"):
